@@ -207,6 +207,9 @@ def run_property(pid, tier, seed, jobs=None, only=None):
         wit = dict(e["witness"])
         wit.setdefault("property", pid)
         status, text, _ = replay_case(wit, active=())
+        if status == "reproduced" and e.get("expect_text") and e["expect_text"] not in text:
+            # the listed input still fails, but in a different way than the recorded finding: not the same finding any more
+            status = "reproduced_differently"
         if status == "reproduced":
             active.append(e["id"])
             print("KNOWN-FINDING: property=%s %s [%s]" % (pid, e["what"], e["id"]), flush=True)
